@@ -117,6 +117,11 @@ class Gen:
                 return c.sql, "(col %d %d)" % (d, c.idx), ty
             sql, sx = self.lit(ty)
             return sql, sx, ty
+        if ty != "bool" and self.o.get("sugar", True) and r.chance(6):
+            a = self.expr(scopes, ty, depth - 1, classes, False, corr)
+            b = self.expr(scopes, ty, depth - 1, classes, False, corr)
+            classes.add("coalesce")
+            return "coalesce(%s, %s)" % (a[0], b[0]), "(case (((isnull 1 %s) %s)) %s)" % (a[1], a[1], b[1]), ty
         if ty in INT_TYPES:
             k = r.below(10)
             w = 32 if ty == "i32" else 64
@@ -151,6 +156,36 @@ class Gen:
             sql, sx = self.lit(ty)
             return sql, sx, ty
         if ty == "bool":
+            if self.o.get("sugar", True) and depth >= 1 and r.chance(10):
+                which = r.below(3)
+                if which == 0:
+                    # a [NOT] BETWEEN lo AND hi  =  a >= lo AND a <= hi  /  a < lo OR a > hi
+                    t2 = r.choice(["i32", "i64", "text"])
+                    a = self.expr(scopes, t2, depth - 1, classes, False, corr)
+                    lo = self.expr(scopes, t2, 0, classes, False, corr)
+                    hi = self.expr(scopes, t2, 0, classes, False, corr)
+                    classes.add("between")
+                    if r.chance(50):
+                        return "(%s BETWEEN %s AND %s)" % (a[0], lo[0], hi[0]), \
+                               "(and (cmp ge %s %s) (cmp le %s %s))" % (a[1], lo[1], a[1], hi[1]), ty
+                    return "(%s NOT BETWEEN %s AND %s)" % (a[0], lo[0], hi[0]), \
+                           "(or (cmp lt %s %s) (cmp gt %s %s))" % (a[1], lo[1], a[1], hi[1]), ty
+                if which == 1:
+                    # c IS [NOT] TRUE / FALSE: two-valued
+                    c = self.expr(scopes, "bool", depth - 1, classes, False, corr)
+                    tv = r.chance(50)
+                    neg = r.chance(50)
+                    classes.add("is_bool")
+                    cond = c[1] if tv else "(not %s)" % c[1]
+                    sx = "(case ((%s (const (b 1)))) (const (b 0)))" % cond
+                    if neg:
+                        sx = "(not %s)" % sx
+                    return "(%s IS %s%s)" % (c[0], "NOT " if neg else "", "TRUE" if tv else "FALSE"), sx, ty
+                # coalesce over booleans
+                a = self.expr(scopes, "bool", depth - 1, classes, False, corr)
+                b = self.expr(scopes, "bool", depth - 1, classes, False, corr)
+                classes.add("coalesce")
+                return "coalesce(%s, %s)" % (a[0], b[0]), "(case (((isnull 1 %s) %s)) %s)" % (a[1], a[1], b[1]), ty
             k = r.below(20)
             if k < 7:
                 t2 = r.choice(["i32", "i64", "text", "i32"])
@@ -234,6 +269,13 @@ class Gen:
         t2 = r.choice(["i32", "text", "i32"])
         a = self.expr(scopes, t2, 1, classes, False)
         sub = self.select(scopes, depth - 1, want=[t2], classes=classes, plain=True)
+        if self.o.get("quantified", True) and r.chance(35):
+            kind = r.choice(["any", "all"])
+            op = r.choice(["eq", "ne", "lt", "le", "gt", "ge"])
+            sym = {"eq": "=", "ne": "<>", "lt": "<", "le": "<=", "gt": ">", "ge": ">="}[op]
+            classes.add("in_sub")       # same decorrelation family (mark join)
+            classes.add("quantified")
+            return "(%s %s %s (%s))" % (a[0], sym, kind.upper(), sub.sql), "(quant %s %s %s %s)" % (kind, op, a[1], sub.sx), "bool"
         neg = r.below(2)
         classes.add("in_sub")
         classes.add("not_in_sub" if neg else "in_sub_pos")
